@@ -649,7 +649,12 @@ func CheckC10(p *Pkg, e *Env, r *res.Result) {
 			forced = nil
 			in.Reset()
 			cl := client
-			if code, _ := strconv.Atoi(tg.info.Doc.Status); raw != nil && realClient.IsValid() && tg.op.Method != "HEAD" && (tg.info.Doc.Status == "default" || code >= 200 && code != 204 && code != 304) && rapid.Bool().Draw(t, "over_loopback") {
+			code, _ := strconv.Atoi(tg.info.Doc.Status)
+			if cf := v.FieldByName("Code"); tg.info.Doc.Status == "default" && cf.IsValid() && cf.CanInt() {
+				code = int(cf.Int())
+			}
+			// (a real client reads the Location of a 3xx itself and net/http keeps no body for 1xx / 204 / 304)
+			if raw != nil && realClient.IsValid() && tg.op.Method != "HEAD" && code >= 200 && code/100 != 3 && code != 204 && rapid.Bool().Draw(t, "over_loopback") {
 				cl = realClient
 				r.Label("transport:loopback-real-http-client")
 			}
